@@ -65,6 +65,14 @@ class ND:
         return tuple(d[k] for k in range(len(d)))
     @property
     def ndim(self): return len(self.shape)
+
+    def __iter__(self):
+        """rows along the first axis (Python would otherwise probe __getitem__ with 0, 1, 2, ... forever)"""
+        n = self.shape[0]
+        if not isinstance(n, int):
+            n = conc(n).__index__() if hasattr(conc(n), '__index__') else int(n)
+        for i in range(n):
+            yield self[i]
     @property
     def n(self): return self.shape[0]
     def _base_idx(self, vidx):
